@@ -11,6 +11,8 @@
 #include "gridgen.h"
 #include <geos/operation/overlayng/OverlayNG.h>
 #include <geos/operation/overlayng/OverlayNGRobust.h>
+#include <geos/operation/overlayng/OverlayUtil.h>
+#include <geos/geom/Location.h>
 #include <geos/noding/snap/SnappingNoder.h>
 #include <geos/geom/PrecisionModel.h>
 #include <cstdarg>
@@ -28,11 +30,12 @@ static const int N_EMPTY = 7;
 // class of an error message: first word, letters only
 static std::string errClass(const std::string& m) { std::string s; for (char c : m) { if (std::isalpha((unsigned char) c)) s += c; else break; } return s.empty() ? std::string("Error") : s; }
 
-struct DX { double a = 1, b = 0, c = 0, d = 1, tx = 0, ty = 0; int ulpPct = 0; Rng* r = nullptr;
+struct DX { double a = 1, b = 0, c = 0, d = 1, tx = 0, ty = 0; int ulpPct = 0; double noise = 0; Rng* r = nullptr;
     void apply(const IPt& p, double& x, double& y) const { x = a * (double) p.x + b * (double) p.y + tx; y = c * (double) p.x + d * (double) p.y + ty; } };
 static std::string seqTokD(const std::vector<IPt>& ps, const DX& t, bool closed) {
     std::string s = "xy " + std::to_string(ps.size()); std::string first;
     for (size_t i = 0; i < ps.size(); i++) { double x, y; t.apply(ps[i], x, y);
+        if (t.noise > 0) { x += t.noise * (t.r->unit() - 0.5); y += t.noise * (t.r->unit() - 0.5); }
         if (t.ulpPct && t.r->chance(t.ulpPct)) { x = std::nextafter(x, t.r->chance(50) ? 1e300 : -1e300); if (t.r->chance(50)) y = std::nextafter(y, t.r->chance(50) ? 1e300 : -1e300); }
         std::string p = " " + hex(x) + " " + hex(y);
         if (i == 0) first = p;
@@ -148,6 +151,30 @@ int main(int argc, char** argv) {
         GEOS_finish_r(h); return 0; }
     if (argc < 5) return 2;
     uint64_t seed = std::stoull(argv[2]); long n = std::stol(argv[3]); Out out(argv[4]); Rng r(seed);
+    if (stream == "overlay-core") {
+        // the real decision functions, exhaustively / on random facts:  R op l0 l1 | D op d0 d1 | E op | boxA | boxB   (box = n | x0 x1 y0 y1)
+        using geos::operation::overlayng::OverlayNG; using geos::operation::overlayng::OverlayUtil; using geos::geom::Location;
+        static const Location locs[3] = {Location::INTERIOR, Location::BOUNDARY, Location::EXTERIOR};
+        for (int op = 0; op <= 5; op++) for (int a = 0; a < 3; a++) for (int b = 0; b < 3; b++) {
+            out.emit("R " + std::to_string(op) + " " + std::to_string(a) + " " + std::to_string(b), OverlayNG::isResultOfOp(op, locs[a], locs[b]) ? "1" : "0"); out.count("isResultOfOp"); }
+        for (int op = 1; op <= 4; op++) for (int a = -3; a <= 2; a++) for (int b = -3; b <= 2; b++) {
+            out.emit("D " + std::to_string(op) + " " + std::to_string(a) + " " + std::to_string(b), std::to_string(OverlayUtil::resultDimension(op, a, b))); out.count("resultDimension"); }
+        for (int d = -3; d <= 3; d++) { std::string t = "X";
+            try { auto g = OverlayUtil::createEmptyResult(d, gf); t = std::to_string((int) g->getGeometryTypeId()); } catch (const std::exception&) { t = "assert"; }
+            out.emit("T " + std::to_string(d), t); out.count("createEmptyResult"); }
+        geos::geom::PrecisionModel pmf;
+        for (long i = 0; i < n; i++) {
+            int op = r.range(1, 4);
+            auto mk = [&](std::string& tok) -> std::unique_ptr<Geometry> {
+                if (r.chance(20)) { tok = "n"; out.count("empty_operand"); return gf->createPolygon(); }
+                int x0 = r.range(0, 5), x1 = r.range(x0, 6), y0 = r.range(0, 5), y1 = r.range(y0, 6);
+                tok = std::to_string(x0) + " " + std::to_string(x1) + " " + std::to_string(y0) + " " + std::to_string(y1);
+                geos::geom::Envelope e(x0, x1, y0, y1); return gf->toGeometry(&e); };
+            std::string ta, tb; auto a = mk(ta); auto b = mk(tb);
+            bool v = OverlayUtil::isEmptyResult(op, a.get(), b.get(), &pmf);
+            out.count(std::string("isEmptyResult_") + (v ? "true" : "false"));
+            out.emit("E " + std::to_string(op) + " | " + ta + " | " + tb, v ? "1" : "0"); }
+        GEOS_finish_r(h); return 0; }
     bool dbl = stream == "overlay-dbl";
     GridGen gen(r, h, &out); Ctx c{h, &out};
     static const char* BIN[] = {"int", "uni", "dif", "sym"};
@@ -172,7 +199,11 @@ int main(int argc, char** argv) {
             double off = r.chance(30) ? 0.0 : std::pow(10.0, r.range(-3, 9)); d.tx = off * (r.unit() - 0.5) * 2; d.ty = off * (r.unit() - 0.5) * 2;
             if (off >= 1e8) out.count("offset_ge_1e8");
             d.r = &r; d.ulpPct = (!cov && r.chance(35)) ? 30 : 0; if (d.ulpPct) out.count("ulp_perturbed");
-            ta = geomTokD(A, d); tb = geomTokD(B, d); }
+            ta = geomTokD(A, d);
+            if (!cov && r.chance(15)) {       // near-coincident copy: B = A displaced by a relative 1e-15 .. 1e-8 of the coordinate magnitude
+                double m = std::max(std::fabs(d.tx), std::fabs(d.ty)) + mag * gen.span; DX d2 = d; d2.noise = m * std::pow(10.0, -15.0 + 7.0 * r.unit()); B = A; out.count("near_coincident_copy");
+                tb = geomTokD(B, d2); }
+            else tb = geomTokD(B, d); }
         std::unique_ptr<Geometry> ga, gb;
         try { ga = buildGeom(ta, gf); gb = buildGeom(tb, gf); } catch (...) { out.count("build_rejected"); continue; }
         if (GEOSisValid_r(h, (GEOSGeometry*) ga.get()) != 1 || GEOSisValid_r(h, (GEOSGeometry*) gb.get()) != 1) { out.count("invalid_skipped"); continue; }
